@@ -1518,6 +1518,16 @@ func genNotif(rng *rand.Rand, id int64, reqs []sreq) snotif {
 		if rng.Intn(3) == 0 {
 			n.Dels = append(n.Dels, pp)
 		} else {
+			// The mixed-schema form: the origin rides on the update's own path while
+			// the prefix has none. The cache stores such a leaf under the index
+			// WITHOUT that origin (known finding D19), so that is where a query finds
+			// it and, by the statement, where it must be streamed; indexPaths ignores
+			// a path-level origin accordingly. Only updates: the feed never carries a
+			// delete in this form (the cache builds its own delete notifications).
+			if n.Prefix.Origin == "" && !pp.Dep && rng.Intn(6) == 0 {
+				pp.Origin = origins[rng.Intn(2)]
+				pathOriginUpdates++
+			}
 			n.Ups = append(n.Ups, pp)
 		}
 	}
@@ -1550,6 +1560,9 @@ func genNotif(rng *rand.Rand, id int64, reqs []sreq) snotif {
 	}
 	return n
 }
+
+// pathOriginUpdates counts generated update entries that carry their origin in the path.
+var pathOriginUpdates int64
 
 var clientIface = reflect.TypeOf((*match.Client)(nil)).Elem()
 
@@ -1983,6 +1996,7 @@ func body(r *vlib.Run) {
 	modeNotifRand(r)
 	modeHistory(r)
 	modeServer(r)
+	r.Count("server_update_entries_with_path_level_origin", pathOriginUpdates)
 	modeConcRemove(r)
 }
 
